@@ -217,15 +217,10 @@ def r11_2_ids_by_order(ctx):
 
 
 SET_ITER_OK = {
-    # (function, expression text) -> reason it is order-insensitive
-    ("assignScratchSlotsToSubroutines", "for slot in allSlots"): "the body only raises on duplicates / fills a set; no output order depends on it",
-    ("graph_search", "list(graph[start])"): "seeds a reachability search whose result is a boolean",
-    ("graph_search", "list(graph[current])"): "same",
-    ("find_recursive_path", "for y in subroutine_graph[x]"): "only builds an error message",
-    ("spillLocalSlotsDuringRecursion", "list(reentryPoints.intersection(calledSubroutines))"): "at most one element: calledSubroutines has at most one member (asserted above)",
-    ("compileSubroutine", "for subroutine in stmt.getSubroutines()"): "list returned by getSubroutines, added to a set",
-    ("collectScratchSlots", "for subroutine, slots in subroutineSlots.items()"): "dict in insertion order; bodies only build sets",
-    ("findRecursionPoints", "set((callee for callee in subroutineGraph[subroutine] if graph_search(subroutineGraph, callee, subroutine)))"): "set built from a set",
+    # (function, "<kind>:<iterated expression, locals resolved>") -> reason it is order-insensitive
+    ("assignScratchSlotsToSubroutines", "for:collectScratchSlots(subroutineBlocks)[0] | set().union(*collectScratchSlots(subroutineBlocks)[1].values())"): "the body only raises on duplicate requested ids / fills a set; no output order depends on it",
+    ("graph_search", "list:graph[start]"): "seeds a reachability search whose result is a boolean",
+    ("graph_search", "list:graph[stack.pop()]"): "same search",
 }
 
 
@@ -313,7 +308,10 @@ def r11_4_hash_order(ctx):
             if any(isinstance(a, ast.Call) and u(a.func) == "sorted" for a in q.ancestors(node)):
                 continue
             n += 1
-            key = (f.qualname, text)
+            # spelling-independent key: the iterated expression with single-definition locals resolved
+            rexpr = q.rtext(f.node, expr)
+            kind_ = "for" if isinstance(node, ast.For) else (u(node.func) if isinstance(node, ast.Call) and isinstance(node.func, ast.Name) else type(node).__name__)
+            key = (f.qualname, f"{kind_}:{rexpr}")
             where = f"{f.module.rel}:{node.lineno}"
             if key in SET_ITER_OK:
                 ctx.ok("R11.4", f"{f.qualname}:{text}", {"reason": SET_ITER_OK[key]}, where)
@@ -346,7 +344,8 @@ def r11_5_fresh_graph(ctx):
     f = ctx.model.find_func("Compilation._compile_impl", "pyteal.compiler.compiler")
     co = q.calls_named(f.node, "CompileOptions", into_nested=False)
     ctx.check(len(co) == 1, "R11.5", "_compile_impl:fresh-options", "CompileOptions (loop stacks, current subroutine) must be created per compilation", f.where, fact={})
-    for nm in ("subroutineGraph", "subroutine_start_blocks", "subroutine_end_blocks"):
+    cs = q.one(q.calls_named(f.node, "compileSubroutine", into_nested=False), f"{f.fq}: compileSubroutine call")
+    for nm in [u(a) for a in cs.args[2:5]]:
         ds = q.assigns_to(f.node, nm)
         ctx.check(len(ds) == 1 and u(ds[0]) in ("dict()", "{}"), "R11.5", f"_compile_impl:fresh-{nm}", f"{nm} must start empty in every compilation", f.where, fact={})
     ctx.require_min("R11.5", 40)
